@@ -1,16 +1,9 @@
 import Basyx.Model.Files
+import Basyx.Lemmas.Fmt
 namespace Basyx.Files
+open Basyx.Fmt
 
 /-! ### `_append_counter` is injective in the counter -/
-
-theorem ofDigitChars_pad4 (i : Nat) : Nat.ofDigitChars 10 (pad4 i) 0 = i := by
-  unfold pad4
-  simp only [Nat.ofDigitChars_append, Nat.ofDigitChars_replicate_zero, Nat.mul_zero]
-  exact Nat.ofDigitChars_ten_toDigits
-
-theorem pad4_injective {i j : Nat} (h : pad4 i = pad4 j) : i = j := by
-  have := congrArg (fun l => Nat.ofDigitChars 10 l 0) h
-  simpa [ofDigitChars_pad4] using this
 
 theorem appendCounter_injective (name : Name) {i j : Nat}
     (h : appendCounter name i = appendCounter name j) : i = j := by
